@@ -11,11 +11,17 @@ git -C /repo worktree add -q --detach "$W" HEAD || exit 2
 cleanup() { git -C /repo worktree remove --force "$W" 2>/dev/null; git -C /repo checkout -- . 2>/dev/null; }
 trap cleanup EXIT
 feat="--features devices"
+# a demonstration may need another feature configuration (C17/C19 seeds): taken from the first
+# `--no-default-features --features <list>` mentioned in the top 25 lines of demo.rs
+demo_feat="$feat"
+alt="$(head -n 25 "$src/demo.rs" | grep -m1 -o -- '--no-default-features --features [A-Za-z0-9_,]*')"
+[ -n "$alt" ] && demo_feat="$alt"
 res() { awk '/^test result/ {p+=$4; f+=$6} END {print "passed=" p+0 " failed=" f+0}'; }
 cp "$src/demo.rs" "$W/tests/seed_demo.rs"
-demo_clean="$(cd "$W" && cargo test --offline $feat --test seed_demo 2>&1 | res)"
+demo_clean="$(cd "$W" && cargo test --offline $demo_feat --test seed_demo 2>&1 | res)"
 git -C "$W" apply "$src/patch.diff" || { echo "patch does not apply"; exit 2; }
-demo_patched="$(cd "$W" && cargo test --offline $feat --test seed_demo 2>&1 | res)"
+demo_patched="$(cd "$W" && cargo test --offline $demo_feat --test seed_demo 2>&1 | res)"
+echo "demo feature flags:    $demo_feat"
 rm "$W/tests/seed_demo.rs"
 suite_default="$(cd "$W" && cargo test --workspace --no-fail-fast --offline 2>&1 | res)"
 suite_devices="$(cd "$W" && cargo test --offline --no-fail-fast $feat 2>&1 | res)"
